@@ -383,5 +383,6 @@ class CanCWriter:
                     device_name_pascal=snake_to_pascal(device_name),
                     device_name_snake=pascal_to_snake(device_name),
                     messages=messages,
+                    is_global_device=device_name == "global",
                 ),
             )
